@@ -374,9 +374,15 @@ package main
 //@   loop 2 binds peer
 //@   loop 2 invariant adsSet != nil && fresh(adsSet)
 // what the rest of the controller does with the advertisements
+// updateAds (abstracted mode): what publishAds handed to the sessions is what the per-Service peer report is built from;
+// a publishing error is returned and nothing is reported
 //@ func (*bgpController).updateAds
-//@   trusted
+//@   abstract
 //@   requires c != nil
+//@   requires [unlocked] lockstate(c.activeAdsMutex) == 0
+//@   ensures [unlockedAfter] lockstate(c.activeAdsMutex) == 0 && lockframe(c.activeAdsMutex)
+//@   assert before notifyAdsChanged: [reportsPublished] arg1 == newAds && err == nil
+//@   exit assert [errorReturned] err != nil ==> result != nil && !called(notifyAdsChanged)
 //@   modifies map[string]sets.Set[string], bgpController.activeAds, $held
 
 // bgpController.SetBalancer: the Service's list is emptied, then for every address and every pool advertisement that
@@ -384,6 +390,7 @@ package main
 // advertisements of other Services are untouched. (The list-level statement "the final list is exactly the set of
 // these routes" needs stability of facts about earlier routes across the in-place append and is not mechanised.)
 //@ func (*bgpController).SetBalancer
+//@   requires [adsUnlocked] lockstate(c.activeAdsMutex) == 0
 //@   requires c != nil && c.svcAds != nil && BGPPoolOK(pool) && ValidIPs(lbIPs)
 //@   modifies map(c.svcAds), fresh *bgp.Advertisement, fresh *net.IPNet, fresh []string, fresh []community.BGPCommunity, fresh []*bgp.Advertisement, fresh []interface{}, map[string]sets.Set[string], bgpController.activeAds, $held
 //@   call sort.Slice with less(a, b) := community.CommLess(a, b)
@@ -408,6 +415,7 @@ package main
 
 // bgpController.DeleteBalancer forgets exactly this Service's advertisements (and republishes)
 //@ func (*bgpController).DeleteBalancer
+//@   requires [adsUnlocked] lockstate(c.activeAdsMutex) == 0
 //@   requires c != nil && c.svcAds != nil
 //@   ensures [gone] !(name in c.svcAds)
 //@   ensures [others] forall s string :: s != name ==> (s in c.svcAds) == old(s in c.svcAds) && sameSlice(c.svcAds[s], old(c.svcAds[s]))
@@ -594,6 +602,7 @@ package main
 // run has a session
 //@ func (*bgpController).syncPeers
 //@   abstract
+//@   requires [adsUnlocked] lockstate(c.activeAdsMutex) == 0
 //@   requires c != nil && (forall k int :: 0 <= k && k < len(c.peers) ==> c.peers[k] != nil && c.peers[k].cfg != nil)
 //@   requires [distinct] forall k1 int, k2 int :: 0 <= k1 && k1 < k2 && k2 < len(c.peers) ==> c.peers[k1] != c.peers[k2]
 //@   assert before Close: [whyClose] !PeerRuns(p.cfg.NodeSelectors, c.nodeLabels)
@@ -654,6 +663,7 @@ package main
 //@ pred SameLabels(a labels.Set, b map[string]string) := forall k string :: ((k in a) == (k in b)) && a[k] == b[k]
 //@ func (*bgpController).SetNode
 //@   abstract
+//@   requires [adsUnlocked] lockstate(c.activeAdsMutex) == 0
 //@   requires c != nil && node != nil
 //@   ensures [labels] c.myNode == node.Name ==> c.nodeLabels != nil && SameLabels(c.nodeLabels, node.Labels)
 //@   ensures [otherNode] c.myNode != node.Name ==> c.nodeLabels == old(c.nodeLabels) && result == nil
@@ -677,6 +687,7 @@ package main
 // session), which is what syncPeers requires; sessions are closed only on entries that were not reused
 //@ func (*bgpController).SetConfig
 //@   abstract
+//@   requires [adsUnlocked] lockstate(c.activeAdsMutex) == 0
 //@   requires c != nil && cfg != nil && (forall n string :: (n in cfg.Peers) ==> cfg.Peers[n] != nil)
 //@   requires [oldPeersOk] forall k int :: 0 <= k && k < len(c.peers) ==> c.peers[k] == nil || c.peers[k].cfg != nil
 //@   assert after append#1: [reused] len(ret) == len(newPeers) + 1 && ret[len(newPeers)] == ep && ep != nil && ep.cfg != nil
